@@ -91,8 +91,8 @@ MUTANTS = [
      "                if epoch > threshold {",
      "                if epoch >= threshold {", 1),
     ("c13-non-strict-increase", "C13", "src/network.rs",
-     "                        if history[i] <= history[i + 1] {",
-     "                        if history[i] < history[i + 1] {", 1),
+     "                        if !(history[i] > history[i + 1]) {",
+     "                        if !(history[i] >= history[i + 1]) {", 1),
     ("c13-window-one-longer", "C13", "src/network.rs",
      "                        val_loss.iter().rev().take(threshold as usize).collect();\n                    let mut increasing = true;\n                    for i in 0..threshold as usize - 1 {",
      "                        val_loss.iter().rev().take(threshold as usize + 1).collect();\n                    let mut increasing = true;\n                    for i in 0..threshold as usize {", 1),
